@@ -4,7 +4,7 @@ import numpy as np
 from common import *
 
 ID = "C02"
-THEOREM_FILES = ["Summer.Props.C02", "Summer.Props.C02Solvers", "Summer.Props.C02Open", "Summer.Props.C02Replacement", "Summer.Props.C07Source", "Summer.Props.C01Rates", "Summer.Props.C04Source", "Summer.Props.C04Weights", "Summer.Props.C07Pipeline"]
+THEOREM_FILES = ["Summer.Props.C02", "Summer.Props.C02Solvers", "Summer.Props.C02Open", "Summer.Props.C02EndToEnd", "Summer.Props.C02Replacement", "Summer.Props.C07Source", "Summer.Props.C01Rates", "Summer.Props.C04Source", "Summer.Props.C04Weights", "Summer.Props.C07Pipeline"]
 TASK = "task"
 RULE = ("(a) arbitrary programs: at three states sum(comp_rates) must equal entry minus exit flow rates (flow ends read from model.flows); "
         "(b) closed programs (no entry/exit flows): outputs.sum(axis=1) constant for euler, rk4 (1e-9*N) and the adaptive solver "
